@@ -12,6 +12,7 @@ import (
 	"hash/fnv"
 	"os"
 	"path/filepath"
+	"runtime"
 	"sort"
 	"strconv"
 	"strings"
@@ -81,6 +82,7 @@ type Stats struct {
 	Excluded    map[string]int `json:"excluded_by_known_finding"`
 	Foreign     map[string]int `json:"foreign_events"`
 	Inconcl     int            `json:"inconclusive"`
+	Aborted     int            `json:"aborted"` // cases ended by a foreign event or inconclusive (not evaluations)
 	Samples     []any          `json:"samples"`
 	Failure     *Failure       `json:"failure,omitempty"`
 	WallS       float64        `json:"wall_s"`
@@ -185,6 +187,7 @@ func (s *Stats) AddForeign(key string) {
 	defer s.mu.Unlock()
 	if s.Failure == nil {
 		s.Foreign[key]++
+		s.Aborted++
 	}
 }
 
@@ -193,6 +196,7 @@ func (s *Stats) AddInconclusive() {
 	defer s.mu.Unlock()
 	if s.Failure == nil {
 		s.Inconcl++
+		s.Aborted++
 	}
 }
 
@@ -252,9 +256,24 @@ func ReplayVerdict(t *testing.T, property, key, msg string) {
 	t.Fail()
 }
 
+// WedgeTimeout is the wall-clock time after which a case that has not
+// finished is examined for a deadlock (a normal case takes < 10 ms).
+var WedgeTimeout = 6 * time.Second
+
+// ErrWedge is returned by Bubble when a goroutine of the case is blocked on a
+// lock/once/channel inside ship-go and does not move any more.
+type ErrWedge struct{ Stack string }
+
+func (e *ErrWedge) Error() string { return "wedge: " + e.Stack }
+
+// ErrInconclusive: the case did not finish in time but no deadlock could be shown.
+type ErrInconclusive struct{ Info string }
+
+func (e *ErrInconclusive) Error() string { return "inconclusive: " + e.Info }
+
 // Bubble runs f inside a synctest bubble (virtual clock) and returns an error
 // if the bubble could not end (a goroutine started inside it is blocked for
-// ever) or f panicked. f must not use t.
+// ever), f panicked, or the case wedged. f must not use t.
 func Bubble(t *testing.T, f func()) (err error) {
 	done := make(chan error, 1)
 	go func() {
@@ -279,5 +298,80 @@ func Bubble(t *testing.T, f func()) (err error) {
 		}
 		done <- nil
 	}()
-	return <-done
+	select {
+	case err := <-done:
+		return err
+	case <-time.After(WedgeTimeout):
+	}
+	// not finished: deadlock or just slow? Compare the blocked ship-go
+	// goroutines of two stack dumps taken two seconds apart.
+	a := blockedInShipGo()
+	select {
+	case err := <-done:
+		return err
+	case <-time.After(2 * time.Second):
+	}
+	b := blockedInShipGo()
+	for id, st := range a {
+		if b[id] == st {
+			WedgeTimeout = 1500 * time.Millisecond // shrinking re-runs near-identical cases
+			return &ErrWedge{Stack: st}
+		}
+	}
+	return &ErrInconclusive{Info: fmt.Sprintf("case still running after %s without a provable deadlock", WedgeTimeout+2*time.Second)}
+}
+
+// blockedInShipGo returns goroutine id -> abbreviated stack for every
+// goroutine that is blocked on a sync primitive with a ship-go frame on its stack.
+func blockedInShipGo() map[string]string {
+	buf := make([]byte, 8<<20)
+	buf = buf[:runtime.Stack(buf, true)]
+	res := map[string]string{}
+	for _, g := range strings.Split(string(buf), "\n\n") {
+		lines := strings.Split(g, "\n")
+		if len(lines) < 2 || !strings.HasPrefix(lines[0], "goroutine ") {
+			continue
+		}
+		head := lines[0]
+		blocked := strings.Contains(head, "sync.Mutex.Lock") || strings.Contains(head, "semacquire") ||
+			strings.Contains(head, "sync.RWMutex") || strings.Contains(head, "chan send") || strings.Contains(head, "chan receive") ||
+			strings.Contains(head, "sync.WaitGroup") || strings.Contains(head, "sync.Cond")
+		if !blocked || !strings.Contains(g, "github.com/enbility/ship-go/") {
+			continue
+		}
+		id := strings.Fields(head)[1]
+		var fr []string
+		for _, l := range lines[1:] {
+			if !strings.HasPrefix(l, "\t") && (strings.Contains(l, "ship-go/") || strings.Contains(l, "sync.")) {
+				if i := strings.LastIndex(l, "("); i > 0 {
+					l = l[:i]
+				}
+				fr = append(fr, l)
+			}
+			if len(fr) >= 10 {
+				break
+			}
+		}
+		// strip the minutes counter so that two dumps compare equal
+		state := head[strings.Index(head, "["):]
+		if i := strings.Index(state, ","); i > 0 {
+			state = state[:i] + "]"
+		}
+		res[id] = state + " " + strings.Join(fr, " <- ")
+	}
+	return res
+}
+
+// Journal records the script that is about to run, so that the driver can
+// name it when the process is killed by a panic in a library goroutine.
+func Journal(script any) {
+	out := os.Getenv("VERIF_OUT")
+	if out == "" {
+		return
+	}
+	b, err := json.Marshal(script)
+	if err != nil {
+		return
+	}
+	_ = os.WriteFile(out+".journal", append(b, '\n'), 0o644)
 }
